@@ -11,7 +11,7 @@ func init() {
 	}
 	Properties["C06"] = &PropertySpec{
 		Modules:     []string{"bigtable"},
-		Rules:       []Rule{R01(nil, nil), R04()},
+		Rules:       []Rule{R01(nil, nil), R04(), R02R03(), R06(), R07(), R09()},
 		Explanation: "wip",
 		Assumptions: commonAssumptions,
 	}
